@@ -72,8 +72,13 @@ def ref_complex(name, fmt, xb, yb):
     sign = 1 << (w - 1)
     x0, y0 = (xb & ~sign) == 0, (yb & ~sign) == 0
     f = CFUN[name]
-    span = abs(((xb & ~sign) >> (p - 1)) - ((yb & ~sign) >> (p - 1)))
-    start = 2 * p + 64 + 2 * span if span < 3000 else 2 * p + 64
+    # cancellation against 1 or between the components can eat as many bits as the exponent spread:
+    # the starting precision covers it (two agreeing low precisions could otherwise both be wrong)
+    bias = (1 << (ew - 1)) - 1
+    ex = max(((xb & ~sign) >> (p - 1)), 1) - bias
+    ey = max(((yb & ~sign) >> (p - 1)), 1) - bias
+    span = max(abs(ex), abs(ey), abs(ex - ey)) + p
+    start = 2 * p + 64 + 2 * span
 
     def side(ex, ey):
         """value with zero components replaced by +-tiny (approach the cut from that side)"""
